@@ -544,8 +544,10 @@ class Exec(HeapMixin, ExprMixin, CallMixin, StmtMixin):
             if d['all']:
                 continue
             kn = '_'.join(str(x) for x in key) if isinstance(key, tuple) else key
+            tags = self.reg.frame_tags.get(key[1] if isinstance(key, tuple) and len(key) > 1 else key)
+            kprops = tags if tags is not None else props
             if not z3.is_array(term):
-                self.oblige(f'frame:{label}:{kn}', term == b, kind='frame', props=props)
+                self.oblige(f'frame:{label}:{kn}', term == b, kind='frame', props=kprops)
                 continue
             r = z3.Int('r')
             cond = [r != x for x in d['refs']]
@@ -553,7 +555,7 @@ class Exec(HeapMixin, ExprMixin, CallMixin, StmtMixin):
                 cond.append(r < alloc0)
             goal = z3.ForAll([r], z3.Implies(z3.And(cond) if cond else z3.BoolVal(True),
                                              z3.Select(term, r) == z3.Select(b, r)))
-            self.oblige(f'frame:{label}:{kn}', goal, kind='frame', props=props)
+            self.oblige(f'frame:{label}:{kn}', goal, kind='frame', props=kprops)
 
     # ------------------------------------------------------------------ loops: invariants
     def loop_spec(self, fi, ordn):
@@ -655,20 +657,27 @@ class Exec(HeapMixin, ExprMixin, CallMixin, StmtMixin):
                         _hooks.EFFECTS[eff](self, env2, pre)
                 result = VNone()
                 if c.returns is not None:
-                    result = self.sym_value(f'res_{callee.replace(".", "_")}!{self.ctx.n}', c.returns)
                     self.ctx.n += 1
+                    rname = f'res_{callee.replace(".", "_")}!{self.ctx.n}'
+                    if self.qvars:
+                        rt = ty.parse(c.returns)
+                        if isinstance(rt, ty.TTuple):
+                            raise Unsupported('tuple result of a pure contract call under a quantifier')
+                        result = self.typed(self.from_terms([self.fresh(rname, self.ctx.sort_of(rt))], rt))
+                    else:
+                        result = self.sym_value(rname, c.returns)
                 env2['result'] = result
+                sink = self.fact if (c.pure and self.qvars) else self.assume
                 for exc, rd in excs:
                     if rd.get('when') is not None and rd.get('iff', True):
-                        for label, term in self.spec_terms(rd['when'], env2):
-                            pass
                         terms = [t for _, t in self.spec_terms(rd['when'], env2)]
-                        self.assume(z3.Not(z3.And(terms)))
+                        sink(z3.Not(z3.And(terms)))
                 for tag, preds in c.ensures.items():
                     for pred in preds:
                         for label, term in self.spec_terms(pred, env2):
-                            self.assume(term)
-                self.prune()
+                            sink(term)
+                if not self.qvars:
+                    self.prune()
                 return result
             exc, rd = excs[choice - 1]
             if rd.get('when') is not None:
